@@ -275,7 +275,10 @@ class BlockDiagNormal(ssm_impl_api.AbstractTreeNormal[BlockDiagTreeFlatten]):
         if self.mean_flat.ndim > 2:
             return func.vmap(BlockDiagNormal._std_batched)(self)
 
-        std_flat = func.vmap(func.vmap(linalg.vector_norm))(self.cholesky_flat)
+        # Row norms via qr_r (like in the dense model), because the derivative
+        # of a plain vector norm is NaN for the zero rows of exact initial states.
+        std_flat = func.vmap(func.vmap(linalg.qr_r))(self.cholesky_flat[..., None])
+        std_flat = np.abs(std_flat.reshape(self.mean_flat.shape))
         return self.tree_flatten.unflatten_array(std_flat)
 
     def residual_whitened_rms_tree(self, u, /):
